@@ -37,11 +37,19 @@ func c11Check(c *hist.Case, r *evid.Rec) []evid.Disc {
 	seenTag := map[int]bool{}
 	windowFull := false
 	reconnects := 0
+	// the open finding behind C11-queued-message-never-sent: a message that was held back and released later is forgotten
+	// as soon as it is written. A stall is attributed to it only if this connection saw such a release (or inherited
+	// unfinished exchanges); a held-back message that is never released at all is something else.
+	pubStep := map[int]int{}
+	lateAny := map[int]bool{} // per connection: some message was delivered in a later step than its publish (not as a resend)
 	for _, s := range run.Steps {
 		if s.A.Kind == "connect" && s.A.Client == 0 && s.I > 0 {
 			reconnects++
 		}
 		// obligations (c): QoS>0 messages the client's session is entitled to
+		if s.A.Kind == "publish" && !s.Skipped && s.Tag > 0 {
+			pubStep[s.Tag] = s.I
+		}
 		if s.A.Kind == "publish" && !s.Skipped && s.Tag > 0 && s.A.Client == 1 {
 			ti := run.Tags[s.Tag]
 			sn := m.Snaps[s.Tag]
@@ -98,6 +106,11 @@ func c11Check(c *hist.Case, r *evid.Rec) []evid.Disc {
 				inTransit[o.Peer][o.P.PacketID] = true
 				if s.A.Kind == "connect" {
 					resent[o.Peer] = true
+				} else if at, ok := pubStep[hist.TagOf(o.P.Payload)]; ok && at != s.I {
+					// released late: the broker forgets this message as soon as it is written (the open finding). From here
+					// on this connection's bookkeeping is off: a QoS 1 one never gives its quota back, and the freed
+					// identifier is handed to the next held-back message, whose record the client's acknowledgement then hits
+					lateAny[o.Peer] = true
 				}
 				// automatic acknowledgements (drain phase) are sent while the step settles: account for them by
 				// looking at what the executor still holds as unacknowledged at the end of the step instead
@@ -159,6 +172,23 @@ func c11Check(c *hist.Case, r *evid.Rec) []evid.Disc {
 		sort.Ints(missing)
 		if len(missing) > 0 {
 			sig := "C11-queued-message-never-sent"
+			// which connection stalled: the client's last one
+			cur := -1
+			for _, p := range run.Peers {
+				if p.CID == C {
+					cur = p.ID
+				}
+			}
+			tainted := false
+			for _, v := range lateAny { // the session carries the forgotten message across reconnects: the client still holds
+				tainted = tainted || v //  it, and its (late) acknowledgement hits whatever record now has that identifier
+			}
+			if !tainted && !staleAck[cur] && !resent[cur] {
+				// nothing on this connection went through the release path of the open finding, and nothing was inherited
+				// from an earlier connection: the stall has another cause
+				sig = "C11-queued-message-never-sent-without-any-late-release"
+			}
+			r.Label(fmt.Sprintf("stall/explained-by-open-finding:%v", sig == "C11-queued-message-never-sent"))
 			ds = append(ds, evid.D(sig, "after the client acknowledged everything promptly (Receive Maximum %d), messages %v were never transmitted to it", R, missing))
 		}
 	}
